@@ -15,6 +15,7 @@ import (
 )
 
 type Clause struct {
+	FromLoopAll bool // a loopall clause: silently skipped at loops where it does not bind
 	Label string
 	Expr  CExpr
 	Src   string
